@@ -85,6 +85,7 @@ class Fn:
         self.libcalls = []
         self.static = False
         self.recurse = 0          # bounded self recursion depth
+        self.nested = False       # has a GNU C nested function (static chain in %r10)
 
 
 def gen_program(rng, nfn=10, threads=1, classes=None, libcalls=True, stress_regs=False):
@@ -115,6 +116,7 @@ def gen_program(rng, nfn=10, threads=1, classes=None, libcalls=True, stress_regs
         f.static = rng.random() < 0.4
         if rng.random() < 0.1:
             f.recurse = rng.randrange(1, 4)
+        f.nested = rng.random() < 0.3
     for f in fns:
         if f.tail == -1:
             cands = [j for j in range(f.idx + 1, nfn) if fns[j].ret == f.ret and not fns[j].variadic and f.ret != "void"]
@@ -176,7 +178,7 @@ def gen_program(rng, nfn=10, threads=1, classes=None, libcalls=True, stress_regs
              "  if (getenv(\"VERIF_OUT\") && (of = fopen(getenv(\"VERIF_OUT\"), \"w\")) != NULL) { fputs(rep, of); fclose(of); }",
              "  return (int)(total % 120u);", "}"]
     out.append("\n".join(main))
-    desc = {"nfn": nfn, "threads": threads,
+    desc = {"nfn": nfn, "threads": threads, "nested": sum(1 for f in fns if f.nested),
             "sigs": ["%s(%s%s)" % (f.ret, ",".join(f.args), ",..." if f.variadic else "") for f in fns]}
     return "\n".join(out) + "\n", desc
 
@@ -232,6 +234,14 @@ def define(f, fns, rng, stress_regs):
                 L.append("  s += (uint64_t)p%d;" % i)
     if f.errno_set is not None:
         L.append("  errno = %d;" % f.errno_set)
+    if f.nested:
+        # a nested function reads and writes the enclosing frame through the static chain (%r10 at its entry);
+        # builds whose entry stub cannot cope with it (-mfentry: known finding) define NO_NESTED
+        L.append("#ifndef NO_NESTED")
+        L.append("  { uint64_t nacc = s ^ 0x51u; double nfp = 0.5;")
+        L.append("    NOINL uint64_t nst%d(uint64_t d, double e) { nacc += d * (s | 1u); nfp += e; MIXV(nacc); MIXV(nfp); return nacc ^ d; }" % f.idx)
+        L.append("    uint64_t n1 = nst%d(3u, 1.25); uint64_t n2 = nst%d(dg %% 7u, 2.5); MIXV(n1); MIXV(n2); MIXV(nacc); MIXV(nfp); }" % (f.idx, f.idx))
+        L.append("#endif")
     for lc in f.libcalls:
         if lc == "strlen":
             L.append("  { size_t n_ = strlen(strtab[s % 4]); MIXV(n_); }")
@@ -272,7 +282,57 @@ def define(f, fns, rng, stress_regs):
 # build modes: name -> (compiler flags, extra uftrace record options)
 MODES = {
     "pg": (["-pg"], []),
-    "fentry": (["-pg", "-mfentry"], []),
+    "fentry": (["-pg", "-mfentry", "-DNO_NESTED"], []),     # nested functions + -mfentry: known finding, see props/c01.py
     "cyg": (["-finstrument-functions"], []),
     "patchable": (["-fpatchable-function-entry=5"], ["-P", "."]),
+    "fentry-nested": (["-pg", "-mfentry"], []),             # only for the dedicated known-finding witness
 }
+
+
+# ---------------------------------------------------------------- finish-trigger scenarios
+FIN_REPORT = r"""
+static void report(const char *line)
+{
+  FILE *of;
+  fputs(line, stdout); fflush(stdout);
+  if (getenv("VERIF_OUT") && (of = fopen(getenv("VERIF_OUT"), "w")) != NULL) { fputs(line, of); fclose(of); }
+}
+"""
+
+
+def gen_finish_program(rng):
+    """Workers sit inside the last function of a chain of sibling (tail) calls - or of plain calls - while
+    another thread fires the function carrying the `finish` trigger (-T finish_now@finish): the first hook
+    each worker runs afterwards is an exit hook on a torn-down shadow stack.  -> (source, description)"""
+    nworkers = rng.choice([1, 2, 3])
+    chain = rng.choice([1, 1, 2, 3])          # number of tail calls before the parked function
+    tail = rng.random() < 0.8
+    by_worker = nworkers > 1 and rng.random() < 0.4   # the trigger is fired by the last worker instead of main
+    L = ["#include <pthread.h>", "#include <stdatomic.h>", "#include <stdio.h>", "#include <stdlib.h>", "#include <stdint.h>",
+         "#define NOINL __attribute__((noinline))", FIN_REPORT,
+         "static atomic_int parked; static atomic_int go; static volatile unsigned long sink;",
+         "NOINL long parkfn(long x) { atomic_fetch_add(&parked, 1); while (!atomic_load(&go)) sink++; return x * 7 + 3; }"]
+    prev = "parkfn"
+    for i in range(chain):
+        name = "hop%d" % i
+        if tail:
+            L.append("NOINL long %s(long x) { sink += x; return %s(x + %d); }" % (name, prev, i + 1))
+        else:
+            L.append("NOINL long %s(long x) { long r; sink += x; r = %s(x + %d); sink += r; return r ^ %d; }" % (name, prev, i + 1, i + 5))
+        prev = name
+    L += ["NOINL long after(long x) { return x ^ 0x5a5a; }",
+          "NOINL void finish_now(void) { sink++; }",
+          "static void *worker(void *arg) { long r = %s((long)(intptr_t)arg); r += after(r); return (void *)(intptr_t)r; }" % prev,
+          "static void *firer(void *arg) { while (atomic_load(&parked) < (int)(intptr_t)arg) sink++; finish_now(); atomic_store(&go, 1); return (void *)(intptr_t)after(99); }",
+          "int main(void)", "{", "  pthread_t th[4], ft; void *res; unsigned long long dg = 1469598103934665603ULL; char line[96]; int i;",
+          "  for (i = 0; i < %d; i++) if (pthread_create(&th[i], NULL, worker, (void *)(intptr_t)(41 + i)) != 0) return 2;" % nworkers]
+    if by_worker:
+        L.append("  if (pthread_create(&ft, NULL, firer, (void *)(intptr_t)%d) != 0) return 2;" % nworkers)
+    else:
+        L += ["  while (atomic_load(&parked) < %d) sink++;" % nworkers, "  finish_now();", "  atomic_store(&go, 1);"]
+    L += ["  for (i = 0; i < %d; i++) { pthread_join(th[i], &res); dg = (dg ^ (unsigned long long)(intptr_t)res) * 1099511628211ULL; }" % nworkers]
+    if by_worker:
+        L.append("  pthread_join(ft, &res); dg = (dg ^ (unsigned long long)(intptr_t)res) * 1099511628211ULL;")
+    L += ["  dg = (dg ^ (unsigned long long)after((long)dg & 0xffff)) * 1099511628211ULL;",
+          "  snprintf(line, sizeof line, \"DIGEST main %016llx\\n\", dg);", "  report(line);", "  return (int)(dg % 100u);", "}"]
+    return "\n".join(L) + "\n", {"nworkers": nworkers, "chain": chain, "tail": tail, "by_worker": by_worker}
